@@ -96,19 +96,18 @@ Lemma plain_simple E defh fl o : is_takeoff o = false -> Forall simple_act (fst 
 Proof.
   destruct o; cbn; intros H; try discriminate;
     first [ apply move_simple | apply turn_simple | apply circle_simple | apply setvel_simple
-          | apply start_circle_simple | constructor ].
+          | apply start_circle_simple | repeat constructor ].
 Qed.
 
-(* on the ground every primitive except take_off does nothing but raise (or, for land, nothing at all) *)
-Lemma timed_ground vx vy vz yaw ft : fst (timed false vx vy vz yaw ft) = [].
-Proof. reflexivity. Qed.
+(* on the ground every primitive except take_off does nothing but raise (land: nothing at all; a user sleep: sleeps) *)
+Definition sleep_act (a : act) : Prop := match a with ASleep _ => True | _ => False end.
 
-Lemma plain_ground E defh o : is_takeoff o = false -> fst (plain_acts E defh false o) = [].
+Lemma plain_ground E defh o : is_takeoff o = false -> Forall sleep_act (fst (plain_acts E defh false o)).
 Proof.
-  destruct o; cbn; intros H; try discriminate; try reflexivity;
+  destruct o; cbn; intros H; try discriminate; try (repeat constructor);
     unfold move_acts, turn_acts, circle_acts, start_circle_acts;
     repeat match goal with |- context [if Qeq_bool ?a ?b then _ else _] => destruct (Qeq_bool a b) end;
-    reflexivity.
+    cbn; repeat constructor.
 Qed.
 
 (* ------------------------------------------------------------------ land *)
@@ -168,6 +167,24 @@ Proof.
   injection H as <- _. exact Hk.
 Qed.
 
+(* once the thread is gone, time passing adds nothing to the log *)
+Lemma quiet_after E s d : thr s = None -> log (fst (sleep E d s)) = log s /\ thr (fst (sleep E d s)) = None.
+Proof.
+  intros Ht. unfold sleep. destruct (Qltb d 0); [cbn; split; [reflexivity|exact Ht]|].
+  assert (Hfl : flush E s = s) by (unfold flush; rewrite Ht; reflexivity).
+  rewrite Hfl, Ht. cbn. split; [reflexivity|exact Ht].
+Qed.
+
+Lemma sleeps_keep_stopped E l : Forall sleep_act l -> forall s, ends_stopped s -> ends_stopped (fst (exec_acts E l s)).
+Proof.
+  induction 1 as [|a l Ha Hl IH]; intros s Hs; cbn; [exact Hs|].
+  destruct a; cbn in Ha; try contradiction. cbn [exec_act].
+  assert (H1 : ends_stopped (fst (sleep E d s))).
+  { destruct Hs as (Ht & Hf & Hlog). destruct (quiet_after E s d Ht) as [Hq1 Hq2].
+    split; [exact Hq2|]. split; [rewrite sleep_flying; exact Hf|]. rewrite Hq1. exact Hlog. }
+  destruct (sleep E d s) as [s1 [e|]]; cbn in *; [exact H1|]. apply IH. exact H1.
+Qed.
+
 (* ------------------------------------------------------------------ the invariant of the with-body *)
 Definition J (s : st) : Prop := flying s = false -> ends_stopped s.
 
@@ -195,8 +212,9 @@ Proof.
     destruct (exec_acts E acts s) as [s1 r1]. cbn in Hk. injection H as <- _.
     intros Hc. congruence.
   - pose proof (plain_ground E defh o Ht) as Hg.
-    destruct (plain_acts E defh false o) as [acts cx]. cbn in Hg. subst acts.
-    cbn in H. injection H as <- _. exact HJ.
+    destruct (plain_acts E defh false o) as [acts cx]. cbn in Hg.
+    pose proof (sleeps_keep_stopped E acts Hg s (HJ Hf)) as Hk.
+    destruct (exec_acts E acts s) as [s1 r1]. cbn in Hk. injection H as <- _. intros _. exact Hk.
 Qed.
 
 Lemma exec_body_J E defh ops : forall s s' r, J s -> exec_body E defh ops s = (s', r) -> J s'.
@@ -206,14 +224,6 @@ Proof.
   - destruct (exec_op E defh o s) as [s1 [e|]] eqn:Ho.
     + injection H as <- _. eapply exec_op_J; eauto.
     + eapply IH; [|exact H]. eapply exec_op_J; eauto.
-Qed.
-
-(* once the thread is gone, time passing adds nothing to the log *)
-Lemma quiet_after E s d : thr s = None -> log (fst (sleep E d s)) = log s /\ thr (fst (sleep E d s)) = None.
-Proof.
-  intros Ht. unfold sleep. destruct (Qltb d 0); [cbn; split; [reflexivity|exact Ht]|].
-  assert (Hfl : flush E s = s) by (unfold flush; rewrite Ht; reflexivity).
-  rewrite Hfl, Ht. cbn. split; [reflexivity|exact Ht].
 Qed.
 
 Theorem mc_exit_ends_with_stop E t0 defh ops sch x s :
@@ -265,14 +275,27 @@ Qed.
 
 Lemma h_goto_fly sq x y z v s s' r : h_goto sq x y z v s = (s', r) -> hfly s' = hfly s.
 Proof.
-  unfold h_goto. destruct (Qltb 0 _); [|intros H; injection H as <- _; reflexivity].
+  unfold h_goto. destruct (negb (hfly s)); [intros H; injection H as <- _; reflexivity|].
+  destruct (Qltb 0 _); [|intros H; injection H as <- _; reflexivity].
   destruct (Qeq_bool _ 0); [intros H; injection H as <- _; reflexivity|].
   match goal with |- context [hsleep ?d ?s1] => destruct (hsleep d s1) as [s2 [e|]] eqn:Hs end;
     intros H; injection H as <- _; apply hsleep_fly in Hs; destruct Hs as [Hs _]; cbn in *; exact Hs.
 Qed.
 
+Lemma h_goto_ground sq x y z v s : hfly s = false -> h_goto sq x y z v s = (s, Some NotFlying).
+Proof. intros Hf. unfold h_goto. rewrite Hf. reflexivity. Qed.
+
 Lemma h_takeoff_flying h v s s' r : hfly s = true -> h_takeoff h v s = (s', r) -> hfly s' = true.
 Proof. unfold h_takeoff. intros Hf. rewrite Hf. intros H. injection H as <- _. exact Hf. Qed.
+
+(* from the ground take_off marks the helper flying before anything can raise *)
+Lemma h_takeoff_ground h v s s' r : hfly s = false -> h_takeoff h v s = (s', r) -> hfly s' = true.
+Proof.
+  unfold h_takeoff. intros Hf. rewrite Hf.
+  destruct (Qeq_bool _ 0); [intros H; injection H as <- _; reflexivity|].
+  match goal with |- context [hsleep ?d ?s1] => destruct (hsleep d s1) as [s2 [e|]] eqn:Hs end;
+    intros H; injection H as <- _; apply hsleep_fly in Hs; destruct Hs as [Hs _]; cbn in *; exact Hs.
+Qed.
 
 Lemma h_land_spec v lh s s' r :
   hfly s = true -> h_land v lh s = (s', r) ->
@@ -293,40 +316,60 @@ Proof.
   eapply h_takeoff_flying; eauto.
 Qed.
 
-Lemma hexec_body_fly sq ops : forall s pos s' r pos',
-  forallb (fun o => negb (h_is_land o)) ops = true -> hfly s = true ->
-  hexec_body sq ops s pos = (s', r, pos') -> hfly s' = true.
+(* invariant of the body: on the ground the last high-level command is stop *)
+Definition JH (s : hst) : Prop := hfly s = false -> exists t rest, hlog s = HStop t :: rest.
+
+Lemma hexec_op_JH sq o s s' r : JH s -> hexec_op sq o s = (s', r) -> JH s'.
 Proof.
-  induction ops as [|o ops IH]; intros s pos s' r pos' Hall Hf H; cbn in H.
-  - injection H as <- _ _. exact Hf.
-  - cbn in Hall. apply andb_true_iff in Hall as [Ho Hall]. apply negb_true_iff in Ho.
-    destruct (hexec_op sq o s) as [s1 [e|]] eqn:Hop.
-    + injection H as <- _ _. eapply hexec_op_fly; eauto.
-    + eapply IH; [exact Hall| |exact H]. eapply hexec_op_fly; eauto.
+  intros HJ H. destruct (hfly s) eqn:Hf.
+  - destruct (h_is_land o) eqn:Hl.
+    + destruct o; try discriminate. cbn in H. destruct (h_land_spec _ _ _ _ _ Hf H) as [_ [rest Hr]].
+      intros _. eexists; eexists; exact Hr.
+    + intros Hc. assert (Hx : hfly s' = true) by (eapply hexec_op_fly; [exact Hl|exact Hf|exact H]). congruence.
+  - specialize (HJ Hf).
+    destruct o; cbn in H;
+      try (unfold h_move in H; rewrite h_goto_ground in H by exact Hf; injection H as <- _; intros _; exact HJ);
+      try (rewrite h_goto_ground in H by exact Hf; injection H as <- _; intros _; exact HJ);
+      try (injection H as <- _; intros _; exact HJ).
+    + (* land on the ground: nothing *)
+      unfold h_land in H. rewrite Hf in H. injection H as <- _. intros _. exact HJ.
+    + (* take_off *)
+      intros Hc. assert (Hx : hfly s' = true) by (eapply h_takeoff_ground; [exact Hf|exact H]). congruence.
+Qed.
+
+Lemma hexec_body_JH sq ops : forall s pos s' r pos',
+  JH s -> hexec_body sq ops s pos = (s', r, pos') -> JH s'.
+Proof.
+  induction ops as [|o ops IH]; intros s pos s' r pos' HJ H; cbn in H.
+  - injection H as <- _ _. exact HJ.
+  - destruct (hexec_op sq o s) as [s1 [e|]] eqn:Hop.
+    + injection H as <- _ _. eapply hexec_op_JH; eauto.
+    + eapply IH; [|exact H]. eapply hexec_op_JH; eauto.
 Qed.
 
 Lemma h_takeoff_ok_flying h v s s' : h_takeoff h v s = (s', None) -> hfly s' = true.
 Proof.
-  unfold h_takeoff. destruct (hfly s); [discriminate|].
-  destruct (Qeq_bool _ 0); [discriminate|].
-  match goal with |- context [hsleep ?d ?s1] => destruct (hsleep d s1) as [s2 [e|]] eqn:Hs end; [discriminate|].
-  intros H. injection H as <-. apply hsleep_fly in Hs. destruct Hs as [Hs _]. cbn in *. exact Hs.
+  intros H. destruct (hfly s) eqn:Hf.
+  - unfold h_takeoff in H. rewrite Hf in H. discriminate.
+  - eapply h_takeoff_ground; eauto.
 Qed.
 
-(* leaving the context ends with stop whenever the helper is still flying when the body ends — in particular
-   for every body without an explicit land() *)
+(* leaving an entered context ends with stop as the last high-level command, for EVERY body (go_to and the
+   moves built on it raise on the ground since F17c, so nothing can follow the stop of an explicit land()) *)
 Theorem hl_exit_ends_with_stop sq s0 ops x s pos :
-  forallb (fun o => negb (h_is_land o)) ops = true ->
   run_hl sq s0 ops = HExited x s pos ->
-  hfly s = false /\ exists rest, hlog s = HStop (hnow s) :: rest.
+  hfly s = false /\ exists t rest, hlog s = HStop t :: rest.
 Proof.
-  unfold run_hl. intros Hall H.
+  unfold run_hl. intros H.
   destruct (h_takeoff None None s0) as [s1 [e|]] eqn:Hto; [discriminate|].
   destruct (hexec_body sq ops s1 [(hx s1, hy s1, hz s1)]) as [[s2 rb] pos2] eqn:Hb.
   destruct (h_land None None s2) as [s3 rl] eqn:Hl.
   injection H as _ <- _.
   apply h_takeoff_ok_flying in Hto.
-  eapply h_land_spec; [|exact Hl]. eapply hexec_body_fly; eauto.
+  assert (HJ2 : JH s2) by (eapply hexec_body_JH; [|exact Hb]; intros Hc; congruence).
+  destruct (hfly s2) eqn:Hf2.
+  - destruct (h_land_spec _ _ _ _ _ Hf2 Hl) as [Hf3 [rest Hr]]. split; [exact Hf3|]. eexists; eexists; exact Hr.
+  - unfold h_land in Hl. rewrite Hf2 in Hl. injection Hl as <- _. split; [exact Hf2|]. apply HJ2. exact Hf2.
 Qed.
 
 Theorem hl_land_ends_with_stop v lh s s' r :
@@ -334,10 +377,10 @@ Theorem hl_land_ends_with_stop v lh s s' r :
   hfly s' = false /\ exists rest, hlog s' = HStop (hnow s') :: rest.
 Proof. apply h_land_spec. Qed.
 
-(* F17c: go_to is not guarded by _is_flying — after an explicit land() a motion primitive still commands the
-   high-level commander, and leaving the context then does not end with stop *)
-Theorem hl_motion_after_land_refuted :
-  exists s pos t x y z yaw d t' rest,
-    run_hl qsqrt_exact (h_init 5 0 0 0 (1 # 2) (1 # 2) 0 None) [HOLand None None; HUp 1 None] = HExited None s pos /\
-    hlog s = HGoto t x y z yaw d :: HStop t' :: rest.
-Proof. do 10 eexists. vm_compute. split; reflexivity. Qed.
+(* non-vacuity / former F17c witness: a motion primitive after an explicit land() now raises and the log still
+   ends with stop *)
+Example hl_motion_after_land_raises :
+  exists s pos t rest,
+    run_hl qsqrt_exact (h_init 5 0 0 0 (1 # 2) (1 # 2) 0 None) [HOLand None None; HUp 1 None] = HExited (Some NotFlying) s pos /\
+    hlog s = HStop t :: rest.
+Proof. do 4 eexists. vm_compute. split; reflexivity. Qed.
